@@ -116,6 +116,7 @@ type Stats struct {
 	Merges        int
 	ModelHits     int
 	Fallbacks     int
+	SolverKills   int
 	PathWall      time.Duration
 	FallbackTime  time.Duration
 	MergeAborts   map[string]int
@@ -156,6 +157,7 @@ func (s *Stats) Merge(o *Stats) {
 	s.Merges += o.Merges
 	s.ModelHits += o.ModelHits
 	s.Fallbacks += o.Fallbacks
+	s.SolverKills += o.SolverKills
 	s.PathWall += o.PathWall
 	s.FallbackTime += o.FallbackTime
 	for k, v := range o.MergeAborts {
@@ -444,6 +446,7 @@ func (ex *Exec) sample() {
 	}
 	res, vals, err := ex.solver.CheckModel(nil, terms)
 	if err != nil || res != smt.Sat {
+		ex.revive(err)
 		return
 	}
 	m := map[string]interface{}{"harness": ex.harness, "path_decisions": len(ex.decided)}
@@ -556,7 +559,10 @@ func (ex *Exec) feasibleM(t *smt.Term) smt.Result {
 	}
 	r, vals, err := ex.solver.CheckModel([]*smt.Term{t}, terms)
 	if err != nil {
-		panic(&pathEnd{kind: "unknown", msg: err.Error()})
+		if !ex.revive(err) {
+			panic(&pathEnd{kind: "unknown", msg: err.Error()})
+		}
+		r = smt.Unknown
 	}
 	if r == smt.Unknown {
 		r, vals = ex.fallback(t, terms)
@@ -569,6 +575,22 @@ func (ex *Exec) feasibleM(t *smt.Term) smt.Result {
 		ex.pendingEval = smt.NewEvaluator(m)
 	}
 	return r
+}
+
+// revive restarts the primary solver after the watchdog killed it and re-asserts the path
+// condition; the query that hung is then treated as unknown (and goes to the fallback solvers).
+func (ex *Exec) revive(err error) bool {
+	if err == nil || !ex.solver.Dead {
+		return false
+	}
+	ex.stats.SolverKills++
+	if ex.solver.Restart() != nil {
+		return false
+	}
+	for _, p := range ex.pc {
+		ex.solver.Push(p)
+	}
+	return true
 }
 
 func (ex *Exec) checkTime() {
@@ -600,7 +622,10 @@ func (ex *Exec) feasible(t *smt.Term) smt.Result {
 	ex.lastHow = "z3"
 	r, err := ex.solver.Check(t)
 	if err != nil {
-		panic(&pathEnd{kind: "unknown", msg: err.Error()})
+		if !ex.revive(err) {
+			panic(&pathEnd{kind: "unknown", msg: err.Error()})
+		}
+		r = smt.Unknown
 	}
 	if r == smt.Unknown {
 		ex.lastHow = "fallback"
@@ -637,6 +662,11 @@ func (ex *Exec) askOther(slot **smt.Solver, kind string, tmo int, t *smt.Term, w
 		*slot = a
 	}
 	alt := *slot
+	if alt.Dead {
+		if alt.Restart() != nil {
+			return smt.Unknown, nil
+		}
+	}
 	ex.stats.Fallbacks++
 	alt.Pop(alt.Depth())
 	for _, p := range ex.pc {
@@ -777,6 +807,7 @@ func (ex *Exec) Concretize(t *smt.Term, max int) uint64 {
 	for {
 		res, mv, err := ex.solver.CheckModel(excl, []*smt.Term{t})
 		if err != nil {
+			ex.revive(err)
 			panic(&pathEnd{kind: "unknown", msg: err.Error()})
 		}
 		if res == smt.Unknown {
@@ -897,6 +928,9 @@ func (ex *Exec) recordViolation(kind, name, site, msg string) {
 		terms = append(terms, tr.t)
 	}
 	res, vals, err := ex.solver.CheckModel(nil, terms)
+	if ex.revive(err) {
+		err, res = nil, smt.Unknown
+	}
 	if err == nil && res == smt.Unknown {
 		res, vals = ex.fallback(nil, terms)
 	}
